@@ -130,7 +130,7 @@ Utf8Step(st, c) ==
 ValidUtf8(bs) == FoldLeft(Utf8Step, <<0, 0, 0>>, bs)[1] = 0
 
 \* ---- length-prefixed forms ----------------------------------------------
-MaxLegacyStringLen == 32767
+MaxStringLen == 32767          \* Kafka limits strings to Short.MAX_VALUE bytes in both forms
 
 LegacyString(x) ==            \* int16 length, -1 for null
   IF IsNull(x) THEN BE(IntBits(-1), 2) ELSE BE(NatBits(Len(x.blob)), 2) \o x.blob
